@@ -262,6 +262,23 @@ fn error_points_at_null(e: &serde_saphyr::Error, text: &str) -> bool {
     }
 }
 
+static SIG_HITS: std::sync::Mutex<std::collections::BTreeMap<String, u64>> = std::sync::Mutex::new(std::collections::BTreeMap::new());
+
+/// Report a violation: every hit is counted per signature (evidence `signature_hits/..`), the
+/// first hit of each signature goes to `Run::violation` (one replay file per signature, so that
+/// the cap on replay files cannot hide a signature behind many witnesses of another one).
+pub fn report(run: &Run, signature: &str, case: serde_json::Value, detail: impl Into<String>) {
+    let first = {
+        let mut g = SIG_HITS.lock().unwrap();
+        let e = g.entry(signature.to_string()).or_insert(0);
+        *e += 1;
+        *e == 1
+    };
+    if first {
+        run.violation(signature, case, detail);
+    }
+}
+
 /// Pump counters from the hook trace (evidence only).
 #[derive(Default)]
 struct Pumps {
@@ -367,7 +384,7 @@ macro_rules! family_check {
                 // only an alias will be written, and an outer frame of the same to_string call
                 // (the definition emitted through an `ArcRecursion`) still holds it -> the thread
                 // blocks forever. Predicted from the serialisation-order model, never timed.
-                run.violation(
+                report(run, 
                     "C14:arcrec:serialize-relocks-mutex-held-by-open-definition",
                     case(),
                     "to_string would deadlock: a strong ArcRecursive reference is reached while the definition of its target is being written (through an ArcRecursion met before the strong owner); ser.rs `impl Serialize for ArcRecursive` locks unconditionally",
@@ -377,11 +394,11 @@ macro_rules! family_check {
             run.eval();
             let text = match catch(|| serde_saphyr::to_string_with_options(&doc, ser_opts(so))) {
                 Err(p) => {
-                    run.violation(&format!("C14:panic:{}", panic_site(&p)), case(), p);
+                    report(run, &format!("C14:panic:{}", panic_site(&p)), case(), p);
                     return;
                 }
                 Ok(Err(e)) => {
-                    run.violation(&format!("C14:serialize-err:{}", $label), case(), format!("to_string failed: {e}"));
+                    report(run, &format!("C14:serialize-err:{}", $label), case(), format!("to_string failed: {e}"));
                     return;
                 }
                 Ok(Ok(t)) => t,
@@ -397,14 +414,14 @@ macro_rules! family_check {
                     } else {
                         format!("C14:emit:unparsable:{}", $label)
                     };
-                    run.violation(&sig, case(), format!("emitted text rejected by the raw parser ({why}):\n{text}"));
+                    report(run, &sig, case(), format!("emitted text rejected by the raw parser ({why}):\n{text}"));
                     return;
                 }
             };
             let mut emit_ok = true;
             if ev.docs != 1 {
                 emit_ok = false;
-                run.violation("C14:emit:not-one-document", case(), format!("{} documents emitted:\n{text}", ev.docs));
+                report(run, "C14:emit:not-one-document", case(), format!("{} documents emitted:\n{text}", ev.docs));
             } else if ev.defs != c0.classes() {
                 emit_ok = false;
                 let sig = if dangling_glued {
@@ -412,21 +429,21 @@ macro_rules! family_check {
                 } else {
                     format!("C14:emit:definitions-ne-allocations:{}", $label)
                 };
-                run.violation(
+                report(run, 
                     &sig,
                     case(),
                     format!("{} anchor definitions for {} allocations reached through wrappers:\n{text}", ev.defs, c0.classes()),
                 );
             } else if ev.aliases != c0.live_refs() - c0.classes() {
                 emit_ok = false;
-                run.violation(
+                report(run, 
                     &format!("C14:emit:aliases-ne-repeated-references:{}", $label),
                     case(),
                     format!("{} aliases for {} repeated references:\n{text}", ev.aliases, c0.live_refs() - c0.classes()),
                 );
             } else if c0.weak_before_strong == 0 && ev.seq != c0.refs {
                 emit_ok = false;
-                run.violation(
+                report(run, 
                     &format!("C14:emit:reference-sequence:{}", $label),
                     case(),
                     format!("definition/alias sequence {:?} differs from reference sequence {:?}:\n{text}", ev.seq, c0.refs),
@@ -471,7 +488,7 @@ macro_rules! family_check {
             let mut verdict_ok = true;
             match r {
                 Err(p) => {
-                    run.violation(&format!("C14:panic:{}", panic_site(&p)), case(), p);
+                    report(run, &format!("C14:panic:{}", panic_site(&p)), case(), p);
                     return;
                 }
                 Ok(Err(e)) => {
@@ -492,7 +509,7 @@ macro_rules! family_check {
                         } else {
                             format!("C14:roundtrip-err:{}:{}", $label, kind)
                         };
-                        run.violation(&sig, case(), format!("from_str failed: {msg}\ntext:\n{text}"));
+                        report(run, &sig, case(), format!("from_str failed: {msg}\ntext:\n{text}"));
                         return;
                     }
                 }
@@ -500,7 +517,7 @@ macro_rules! family_check {
                     let c1 = match catch(|| fam::$m::canon(&d2)) {
                         Ok(c) => c,
                         Err(p) => {
-                            run.violation(
+                            report(run, 
                                 &format!("C14:readback-graph-unwalkable:{}", $label),
                                 case(),
                                 format!("walking the deserialised graph panicked: {p}\ntext:\n{text}"),
@@ -523,7 +540,7 @@ macro_rules! family_check {
                         } else {
                             format!("C14:roundtrip-mismatch:{}:{what}", $label)
                         };
-                        run.violation(&sig, case(), format!("{}\ntext:\n{text}", first_diff(&c0.out, &c1.out)));
+                        report(run, &sig, case(), format!("{}\ntext:\n{text}", first_diff(&c0.out, &c1.out)));
                         return;
                     }
                     for u in &unspecified {
@@ -545,7 +562,7 @@ macro_rules! family_check {
                 };
                 match catch(|| serde_saphyr::from_str_with_options::<fam::plain::Doc>(&text, vcore::errs::unlimited_options())) {
                     Err(p) => {
-                        run.violation(&format!("C14:panic:{}", panic_site(&p)), case(), p);
+                        report(run, &format!("C14:panic:{}", panic_site(&p)), case(), p);
                         return;
                     }
                     Ok(Err(e)) => {
@@ -554,7 +571,7 @@ macro_rules! family_check {
                         } else {
                             format!("C14:mirror-err:{}:{}", $label, vcore::errs::kind(&e))
                         };
-                        run.violation(&sig, case(), format!("plain mirror type failed: {e}\ntext:\n{text}"));
+                        report(run, &sig, case(), format!("plain mirror type failed: {e}\ntext:\n{text}"));
                         return;
                     }
                     Ok(Ok(got)) => {
@@ -565,7 +582,7 @@ macro_rules! family_check {
                                 format!("C14:mirror-mismatch:{}", $label)
                             };
                             let (a, b) = (fam::plain::canon(&expected), fam::plain::canon(&got));
-                            run.violation(
+                            report(run, 
                                 &sig,
                                 case(),
                                 format!("plain mirror differs from the expansion: {}\ntext:\n{text}", first_diff(&a.shape, &b.shape)),
@@ -594,7 +611,7 @@ macro_rules! family_check {
                         run.eval();
                         match catch(|| serde_saphyr::from_str_with_options::<fam::$m::Doc>(&stripped, vcore::errs::unlimited_options())) {
                             Err(p) => {
-                                run.violation(&format!("C14:panic:{}", panic_site(&p)), case(), p);
+                                report(run, &format!("C14:panic:{}", panic_site(&p)), case(), p);
                                 return;
                             }
                             Ok(Err(e)) => {
@@ -603,7 +620,7 @@ macro_rules! family_check {
                                 } else {
                                     format!("C14:unreferenced-anchors-removed:{}:err:{}", $label, vcore::errs::kind(&e))
                                 };
-                                run.violation(
+                                report(run, 
                                     &sig,
                                     case(),
                                     format!("the document without its {} unreferenced anchors fails: {e}\ntext:\n{stripped}", ev.unreferenced.len()),
@@ -612,7 +629,7 @@ macro_rules! family_check {
                             }
                             Ok(Ok(d3)) => match catch(|| fam::$m::canon(&d3)) {
                                 Err(p) => {
-                                    run.violation(
+                                    report(run, 
                                         &format!("C14:readback-graph-unwalkable:{}", $label),
                                         case(),
                                         format!("walking the graph read from the stripped text panicked: {p}\ntext:\n{stripped}"),
@@ -627,7 +644,7 @@ macro_rules! family_check {
                                         } else {
                                             format!("C14:unreferenced-anchors-removed:{}:{what}", $label)
                                         };
-                                        run.violation(
+                                        report(run, 
                                             &sig,
                                             case(),
                                             format!(
@@ -760,7 +777,7 @@ fn main() {
 
     // ---- seeded random graphs, sharing probability swept 0..1
     let n_random = if part("random") {
-        std::env::var("VERIF_C14_RANDOM_N").ok().and_then(|v| v.parse().ok()).unwrap_or(tier.pick(80_000, 1_200_000))
+        std::env::var("VERIF_C14_RANDOM_N").ok().and_then(|v| v.parse().ok()).unwrap_or(tier.pick(80_000, 800_000))
     } else {
         0
     };
@@ -803,6 +820,9 @@ fn main() {
     });
 
     flush_counters(&run);
+    for (sig, n) in SIG_HITS.lock().unwrap().iter() {
+        run.count(&format!("signature_hits/{sig}"), *n);
+    }
     let scope = format!(
         "for each family in {{rc, arc, rcrec, arcrec}}: (a) every graph on n <= 3 nodes in which each ordered pair i<j is linked in one of 7 ways \
          (none | kids | one | named map | inner.list | choice::Ref | kids+named), parentless nodes listed in Doc.roots after or before node 0, \
